@@ -619,7 +619,31 @@ def check_C16(chk, tier):
     e1.run_harnesses(chk, hs, "C16 coordinate readers", "n <= %d, <= %d file entries in any order with symbolic positions and values, general and symmetric (diagonal present/absent), 1-based; CBMC bounds/pointer checks on every array the reader allocates" % (NBq, NEq))
 
 
-REGISTRY = {"C16": check_C16, "C13": check_C13, "C12": check_C12, "C11": check_C11, "C09": check_C09, "C19": check_C19, "C20": check_C20, "C07": check_C07, "C14": check_C14, "C10": check_C10, "C08": check_C08, "C18": check_C18, "C05": check_C05, "C06": check_C06, "C01": check_C01, "C02": check_C02, "C03": check_C03, "C04": check_C04}
+# ------------------------------------------------------------------------------------------------ C15 incomplete LU
+def icase(n, pat, colperm=0, permidx=0, tune="t122", symcols=0, milu=0, droprule=9, rowperm=0, trans=0, dropmode=0, nrhs=1):
+    return (n, hex(pat), colperm, permidx) + tuple(T[tune]) + (symcols, milu, droprule, rowperm, trans, dropmode, nrhs)
+
+
+def check_C15(chk, tier):
+    chk.assumptions += COMMON_ASSUME + ["ILU cases use structurally nonsingular patterns; most use a generic concrete matrix (or one symbolic column) with symbolic right-hand sides; MC64 row permutation only on concrete matrices (its log/exp arithmetic is modelled by fresh monotone atoms)",
+                                        "info is checked to lie in [0,n]; that it COUNTS the replaced pivots is not checked (would need a hook on ilu_?pivotL)"]
+    q = tier == "quick"
+    for prec in (["d"] if q else ["d", "z", "s"]):
+        cs = []
+        shapes = [(2, 15), (2, 0b0110), (3, 511), (3, C.band(3, 1, 1)), (3, 0b101110011), (4, C.band(4, 1, 1)), (5, C.dense(5, 5)), (6, C.band(6, 2, 2))] + ([] if q else [(9, C.arrow(9)), (10, C.band(10, 4, 1))])
+        for n, pat in shapes:
+            if C.structural_rank(n, n, pat) < n: continue
+            for dm in (0, 1, 2):
+                for tr in (0, 1):
+                    cs.append(icase(n, pat, symcols=0, trans=tr, dropmode=dm, milu=(n + dm) % 4, tune="t122" if n < 5 else "t2_4_4", nrhs=1 + (n % 2)))
+            cs.append(icase(n, pat, symcols=0, rowperm=1, dropmode=0)); cs.append(icase(n, pat, symcols=0, rowperm=1, dropmode=1, trans=1, colperm=2))
+            if n <= 3 and not (q and pat == 511): cs.append(icase(n, pat, symcols=1 << (n - 1), dropmode=1)); cs.append(icase(n, pat, symcols=1 << (n - 1), dropmode=2, droprule=0x0B, milu=2)); cs.append(icase(n, pat, symcols=1, dropmode=0, colperm=4, permidx=1))
+        for pat in ((0b0110,) if q else (0b0110, 15, 0b1101)): cs.append(icase(2, pat, symcols=-1, dropmode=1)); cs.append(icase(2, pat, symcols=-1, dropmode=2))
+        run_phase(chk, "gsisx/" + prec, H + "h_ilu.c", list(dict.fromkeys(cs)), ["C15."], prec=prec, budget_s=200 if q else 1500, validate_samples=0, path_timeout=40 if q else 600, key_extra=lambda c: {"has_symbolic_column": str(int(c[10] != 0))}, qtimeout_ms=5000 if q else 60000, env=CPLX_ENV if prec in "zc" else None,
+                  bounds="structurally nonsingular patterns n<=6 (10 thorough) incl. zero diagonal; drop settings {default, disabled, aggressive}; MILU variants; NOROWPERM / LargeDiag_MC64; NOTRANS/TRANS; symbolic B, concrete or partly/fully symbolic A")
+
+
+REGISTRY = {"C15": check_C15, "C16": check_C16, "C13": check_C13, "C12": check_C12, "C11": check_C11, "C09": check_C09, "C19": check_C19, "C20": check_C20, "C07": check_C07, "C14": check_C14, "C10": check_C10, "C08": check_C08, "C18": check_C18, "C05": check_C05, "C06": check_C06, "C01": check_C01, "C02": check_C02, "C03": check_C03, "C04": check_C04}
 
 
 def run(pid, tier):
